@@ -547,6 +547,21 @@ func check(c *Case, count bool) error {
 		if c.Recovery {
 			stats.Class("recovery-outside-logger")
 		}
+		if c.Route.Mode != "inherit" {
+			if c.Kind == "route" {
+				stats.Class("route-resolver:overrides-the-global-one")
+			} else {
+				stats.Class("route-resolver:set-but-not-applicable-to-this-kind")
+			}
+		}
+		if _, ok := remoteIP(c.RemoteAddr); ok {
+			stats.Class("remote-addr:ip-port")
+		} else {
+			stats.Class("remote-addr:junk")
+		}
+		if c.IgnoreTS {
+			stats.Class("route-reached-by-ignoring-trailing-slash")
+		}
 		nt := eff.Mode == "fail" || c.Route.Mode != "inherit"
 		for _, code := range base.w.codes {
 			if boundary[code] {
